@@ -1218,7 +1218,23 @@ func (t *Transport) setTLSFingerprint(clientHelloID utls.ClientHelloID) {
 			}
 		}
 		tlsConfig := t.TLSClientConfig
+		// the client's TLS settings govern the fingerprinted handshake like every other: a configured
+		// server name replaces the host name, the client certificates are presented
+		if tlsConfig.ServerName != "" {
+			hostname = tlsConfig.ServerName
+		}
+		var certs []utls.Certificate
+		for _, c := range tlsConfig.Certificates {
+			certs = append(certs, utls.Certificate{
+				Certificate:                 c.Certificate,
+				PrivateKey:                  c.PrivateKey,
+				OCSPStaple:                  c.OCSPStaple,
+				SignedCertificateTimestamps: c.SignedCertificateTimestamps,
+				Leaf:                        c.Leaf,
+			})
+		}
 		utlsConfig := &utls.Config{
+			Certificates:                certs,
 			ServerName:                  hostname,
 			Rand:                        tlsConfig.Rand,
 			Time:                        tlsConfig.Time,
